@@ -34,7 +34,7 @@ def run(ctx, theorems, plan, level, explanation, extra_cov=None, assumptions=(),
             ncases += 1
             fs['cases'] += 1
             events += c['events']
-            bad = c['rc'] != 0 or c['d_model'] is not None or c['d_spec'] is not None
+            bad = c['rc'] != 0 or c['d_model'] is not None or c['d_spec'] is not None or c.get('ledger')
             if not bad:
                 if c['events'] >= 4:
                     distinct.add((r['seed'], c['k']))
@@ -50,6 +50,8 @@ def run(ctx, theorems, plan, level, explanation, extra_cov=None, assumptions=(),
                 what = 'generated scanner crashed / sanitizer report (rc=%s): %s' % (c['rc'], (c.get('real_err') or '')[:300])
             elif c['rc'] == -999:
                 what = 'generated scanner did not terminate within the time limit'
+            elif c.get('ledger'):
+                what = 'allocation ledger: %s (%s)' % (c['ledger'], r['cfg'])
             else:
                 d = c['d_spec'] or c['d_model']
                 what = 'real trace differs from the specification at event %s: real=%r spec=%r (%s)' % (
